@@ -109,8 +109,11 @@ class BreakdownScheduler(Entity):
         from happysimulator.core.temporal import Instant
 
         ttf = random.expovariate(1.0 / self.mean_time_to_failure)
+        # The time to failure is measured from *now*: measured from the Epoch it would lie in
+        # the past when the simulation starts later than t=0 or the cycle is started mid-run.
+        base = self._clock.now if self._clock is not None else Instant.Epoch
         return Event(
-            time=Instant.from_seconds(ttf),
+            time=base + ttf,
             event_type=_BREAKDOWN,
             target=self,
             daemon=True,
@@ -143,7 +146,7 @@ class BreakdownScheduler(Entity):
 
             return [
                 Event(
-                    time=Instant.from_seconds(now_s + repair_time),
+                    time=self.now + repair_time,
                     event_type=_REPAIR_COMPLETE,
                     target=self,
                     daemon=True,
@@ -170,7 +173,7 @@ class BreakdownScheduler(Entity):
 
             return [
                 Event(
-                    time=Instant.from_seconds(now_s + ttf),
+                    time=self.now + ttf,
                     event_type=_BREAKDOWN,
                     target=self,
                     daemon=True,
